@@ -56,4 +56,12 @@ def knownTasks (st : Store) : List Nat :=
     | _ => none
   (isortBy (·.1) ns).map (·.2)
 
+/-- All task nodes (with or without output), in ascending rank. -/
+def nodeTasks (st : Store) : List Nat :=
+  let ns := st.g.nodes.filterMap fun kv =>
+    match kv.2.data with
+    | .task t _ => some (kv.2.topo, t)
+    | _ => none
+  (isortBy (·.1) ns).map (·.2)
+
 end PieModel
